@@ -56,6 +56,12 @@ Definition run_assert (a : assertion) (v : json) : option str :=
             | JNull | JStr _ | JArr _ | JObj _ => Some e_type       (* '>=' not supported *)
             end
   | AIsInst ks => if existsb (fun k => is_inst k v) ks then None else Some e_assert
+  | AStrOrStrList => match v with
+                     | JStr _ => None
+                     | JArr l => if forallb (fun x => match x with JStr _ => true | _ => false end) l then None
+                                 else Some e_assert
+                     | _ => Some e_assert
+                     end
   end.
 
 Fixpoint run_asserts (l : list assertion) (v : json) : option str :=
